@@ -41,6 +41,8 @@ func init() {
 	contextFunctions[symbols.NT_AbbreviatedAxisSpecifier] = execAbbreviatedAxisSpecifier
 	contextFunctions[symbols.NT_AbbreviatedAbsoluteLocationPath] = execAbbreviatedAbsoluteLocationPath
 	contextFunctions[symbols.NT_AbbreviatedRelativeLocationPath] = execAbbreviatedRelativeLocationPath
+	contextFunctions[symbols.NT_PathExprFilterWithPath] = leftRightDependentResult
+	contextFunctions[symbols.NT_PathExprFilterWithAbbreviatedPath] = execAbbreviatedRelativeLocationPath
 }
 
 func execAbsoluteLocationPathOnly(context *exprContext, expr *grammar.Grammar) error {
